@@ -81,12 +81,18 @@ def search(ctx):
                 "gemini": {"tool_name": gem_tool, "tool_input": {"command": cmd}, "cwd": cwd},
                 "cursor": {"command": cmd, "cwd": cwd},
             }
+            if r.chance(0.5):
+                # the payloads the hosts really send (docs/hook-systems): every common field present
+                shapes["claude"].update({"session_id": "abc123", "transcript_path": w.s.home + "/t.jsonl", "hook_event_name": "PreToolUse", "tool_use_id": "toolu_01"})
+                shapes["gemini"].update({"session_id": "abc123", "transcript_path": w.s.home + "/t.jsonl", "hook_event_name": "BeforeTool", "timestamp": "2025-12-01T10:30:00Z"})
+                shapes["cursor"].update({"conversation_id": "c-1", "generation_id": "g-1", "model": "claude-4-sonnet", "hook_event_name": "beforeShellExecution", "cursor_version": "2.1.46", "workspace_roots": [cwd], "user_email": "u@example.com"})
+                stats["full_payload_groups"] += 1
             for host, v in shapes.items():
                 if pm:
                     v["permission_mode"] = pm
                 for args in ([], ["--" + host]):
                     jobs.append({"stdin": json.dumps(v).encode(), "home": w.s.home, "args": args, "env_extra": envx, "cwd": w.proj})
-                    metas.append((cmd, cwd, pm, host, args, envx))
+                    metas.append((cmd, cwd, pm, host, args, envx, "hook_event_name" in v))
         # mode precedence probes: a claude-shaped input under every flag/env combination
         for _ in range(ctx.scale(60, 1200)):
             args = list(r.pick(CH.FLAG_SETS))
@@ -98,16 +104,16 @@ def search(ctx):
             host = r.pick(["claude", "gemini", "cursor"])
             v = {"claude": {"tool_name": "Bash", "tool_input": {"command": "rm x"}, "command": "rm x", "cwd": w.proj}, "gemini": {"tool_name": "shell", "tool_input": {"command": "rm x"}, "command": "rm x", "cwd": w.proj}, "cursor": {"command": "rm x", "cwd": w.proj}}[host]
             jobs.append({"stdin": json.dumps(v).encode(), "home": w.s.home, "args": args, "env_extra": envx, "cwd": w.proj})
-            metas.append(("rm x", w.proj, None, "probe:" + host, args, envx))
+            metas.append(("rm x", w.proj, None, "probe:" + host, args, envx, False))
         results = H.run_many(jobs)
         groups = collections.defaultdict(list)
         for meta, (rc, out, err) in zip(metas, results):
             stats["evaluations"] += 1
-            cmd, cwd, pm, host, args, envx = meta
+            cmd, cwd, pm, host, args, envx, full = meta
             got = CH.parse_stdout(out)
             j = got[0]["json"] if len(got) == 1 and "json" in got[0] else None
             kind = envelope_kind(j)
-            base = {"input": {"command": cmd, "cwd": cwd.replace(w.s.root, "<root>"), "permission_mode": pm, "host_shape": host, "argv": args, "env": envx}, "observed": {"exit": rc, "stdout": out[:400].decode("utf-8", "replace")}}
+            base = {"input": {"command": cmd, "cwd": cwd.replace(w.s.root, "<root>"), "permission_mode": pm, "host_shape": host, "full_payload": full, "argv": args, "env": envx}, "observed": {"exit": rc, "stdout": out[:400].decode("utf-8", "replace")}}
             if rc != 0 or kind == "malformed" or j is None:
                 vios.append(dict(base, required="exit 0 and a conforming envelope (or {})", oracle="envelope-schema"))
                 continue
@@ -122,7 +128,7 @@ def search(ctx):
             if kind is not None and kind != want_kind:
                 vios.append(dict(base, required=f"{want_kind} envelope for {want_kind}-shaped input", oracle="envelope-kind"))
             dec = H.decision_of(out)
-            groups[(cmd, cwd, pm, json.dumps(envx, sort_keys=True))].append((host, args, dec, base))
+            groups[(cmd, cwd, pm, json.dumps(envx, sort_keys=True))].append((host + ("+full" if full else ""), args, dec, base))
         for key, items in groups.items():
             decs = {(d[0], d[1]) for _, _, d, _ in items}
             stats["groups"] += 1
